@@ -8,6 +8,7 @@ pub mod c08;
 pub mod c09;
 pub mod c10;
 pub mod c11;
+pub mod c12;
 pub mod c16;
 
 use crate::Ctx;
@@ -24,6 +25,7 @@ pub fn run(ctx: &Ctx) -> i32 {
         "C09" => c09::run(ctx),
         "C10" => c10::run(ctx),
         "C11" => c11::run(ctx),
+        "C12" => c12::run(ctx),
         "C16" => c16::run(ctx),
         other => {
             eprintln!("MACHINERY-ERROR unknown property {}", other);
@@ -44,6 +46,7 @@ pub fn replay(id: &str, payload: &serde_json::Value) -> bool {
         "C09" => c09::replay(payload),
         "C10" => c10::replay(payload),
         "C11" => c11::replay(payload),
+        "C12" => c12::replay(payload),
         "C16" => c16::replay(payload),
         other => {
             eprintln!("MACHINERY-ERROR no replay for {}", other);
